@@ -26,12 +26,16 @@ RULE = ("SPD systems (Gram + shift, random sparse pattern; solver CG) and strict
         "vanish exactly during the iteration); scaled-* = random SPD / SDD / mixed systems with A*2^(+-60,120,200), b*2^(0,+-100,+-sa), both signs for every class on "
         "every run; history = executor kind it.seq: an operation on the matrix object (none, transpose twice, from_vecs, insert, scale by 2 or 1/2, x.clone()) then two "
         "calls on the same matrix and x; the call with the budget 20n+100 carries the demands with the previous x as its guess. "
+        "extreme-scale = adversarial family of the RECORDED finding f64-square-range (5 systems per quick run, all five entry points): small SPD / strictly diagonally "
+        "dominant systems with b or A scaled by 2^+-(520..700) or a solution beyond the f64 range; a failure carries the key exactly when the INPUT has ||b||^2, the "
+        "square of an entry of b / x0 / A or a product A_ij x_j of the exact solution outside [2^-1022, 2^1024) (inputs in range fall through to the breakdown keys; histories never). "
         "distinct = distinct executor line; non-trivial = order >= 2.")
 TRUSTED = ["Coq 8.16.1 kernel + vm_compute (primitive floats)", "Rust executor /verif/harness (kinds it.*)",
            "python driver: generators, numpy.linalg.solve / cond reference, stream comparators",
            "hand-written Gallina model coq/Model/Iter.v (on top of coq/Model/Sparse.v) tied to src/sparse.rs:303-616 by differential execution"]
 ASSUMPTIONS = ["Rust semantics of Vec/usize/f64 as modelled", "the iteration bound 3n+10 and the attainability rule are calibrated constants of the search, not theorems"]
 UNPROVED = ["convergence is proved in EXACT arithmetic only: cg_terminates_spd_R (SPD, every b, x0, tol >= 0, budget >= n: Ok k with k <= n, solved), cg_direct_solver_R, the same for symmetric strictly diagonally dominant matrices with positive diagonal (sdd_symmetric_is_posdef) and for BiCG on symmetric matrices (bicg_is_cg_on_symmetric); for arbitrary matrices bicg_breakdown_or_terminates (BiCG divides by zero or returns Ok within n+1 iterations); the exits of BiCGSTAB / QMR are characterised and the left-eigenvector class of the recorded breakdowns is a theorem. NOT proved: anything positive about BiCGSTAB / QMR beyond eigenvector and 1x1 starts, and every statement about the floating-point iteration (success within 3n+10, agreement with the direct solution to tol*cond): failing-input search only",
+            "RECORDED finding f64-square-range (same mechanism as C15: Vector<f64>::norm_2 squares its entries without scaling): 'right-hand sides of any scale' fails beyond 2^+-511 -- with ||b|| < 2^-511 every solver answers Ok(0) and leaves x at the guess, with ||b|| > 2^512 norm_2(b) = inf and the answer is Err(NaN) with x = NaN; entries of A beyond 2^+-511 overflow / underflow the dot products likewise; witnesses corpus/C09/kf_scale_underflow.json, kf_scale_overflow.json",
             "the degenerate-start theorems are over exact fields (any square-root function with sqrt 0 = 0); their f64 instances are covered by the tie and the search"]
 
 MANIFEST = dict(
@@ -44,7 +48,8 @@ MANIFEST = dict(
           "numpy on order <= 60, with the float model tied to the implementation on order <= 12. The search found a new failure class (exact Krylov "
           "breakdowns of BiCG / BiCGSTAB / QMR on small-integer systems), recorded as three open findings keyed by the model's exit code. The search space includes "
           "structured matrices, joint power-of-two scaling of A and b (absolute thresholds show), one-entry / equal-entry / unit-norm / -0.0 right-hand sides, guesses exact "
-          "except in one component, and restarts (two calls on the same matrix object and x: executor kind it.seq, oracle only)."),
+          "except in one component, and restarts (two calls on the same matrix object and x: executor kind it.seq, oracle only). Right-hand sides / matrices scaled by "
+          "2^+-(520..700) are searched as well; the failures there are the recorded finding f64-square-range (norm_2 squares its entries), keyed by the input alone."),
     note=("PARTIAL: the degenerate-start half and exact-arithmetic finite termination of CG / symmetric BiCG on SPD and symmetric diagonally dominant systems are theorems. Convergence of the floating-point Krylov iterations is searched, never proved; the iteration "
           "constant 3n+10 (positive-diagonal SDD and SPD; 20n+100 for mixed-sign diagonals) and the attainability rule tol >= 10 n eps kappa are calibrated."),
     technique="Coq proof over an abstract field (degenerate starts) + float-model/implementation differential execution + numpy reference search (convergence)",
@@ -105,6 +110,9 @@ def generate(rng, tier):
         n = g.range(2, 9) if t % 3 else g.range(10, maxn)
         emit(n, fams[t % len(fams)], "zero-rhs-guess", guess="random", rhs="zero")
     cases.extend(gen_special(rng.fork("c09-special"), tier))
+    # extreme scale (recorded finding f64-square-range): failures on these inputs carry the key, decided from the input
+    for (sv, s, mi, tol, kap, fam) in extreme_systems(rng.fork("c09-extreme"), tier, lambda n: 20 * n + 100):
+        cases.extend(mk_cases(sv, s, mi, tol, "extreme-scale", tie=False, extra={"kappa": kap, "wellposed": True}))
     return finalize(cases, PID)
 
 # ----------------------------------------------------------------------------- special-values families (iterlib: structured catalogue)
@@ -277,8 +285,8 @@ def judge(m, s, a, tol, maxit):
     if a.k > bound:
         return "Ok(%d) needs more than %d*n+%d = %d iterations (n=%d, kappa %.3g, tol %.0e)" % (a.k, ITER_A, ITER_B, bound, n, kap, tol)
     xd = np.linalg.solve(A, np.array(s.b))
-    err = float(np.linalg.norm(np.array(a.x) - xd))
-    nxd = float(np.linalg.norm(xd))
+    err = norm2(list(np.array(a.x) - xd))          # norm2: the numpy value in the ordinary range, scaled form at extreme scale
+    nxd = norm2(list(xd))
     k2 = float(np.linalg.cond(A, 2))
     kk = max(kap, k2)
     if nb != 0.0:
@@ -294,6 +302,10 @@ def judge(m, s, a, tol, maxit):
 def finding_key(case, desc, decoded):
     if case.meta.get("role") == "seq":
         return None          # histories have no model twin: nothing is excused
+    # recorded finding f64-square-range: decided from the INPUT alone (||b||^2, a squared entry of b / x0 / A or a product
+    # A_ij x_j of the exact solution outside the normal f64 range); inputs in range fall through to the breakdown keys
+    if "sys" in case.meta and scale_out_of_range(Sys.from_json(case.meta["sys"])):
+        return KEY_SQUARE_RANGE
     if decoded is None or not ("no convergence" in desc or "not finite" in desc or "needs more than" in desc):
         return None
     return breakdown_key(case, decoded, PID)
